@@ -13,7 +13,7 @@ from .gen import Unit, GenError
 
 VERIF = os.path.dirname(os.path.dirname(os.path.abspath(__file__)))
 REPO = os.environ.get('VERIF_REPO', '/repo')
-WORK = os.path.join(VERIF, '.work')
+WORK = os.path.join(VERIF, '.work' if REPO == '/repo' else '.work-alt-' + hashlib.md5(REPO.encode()).hexdigest()[:8])
 
 VERIF_FAIL = [
     'postcondition not satisfied', 'precondition not satisfied', 'assertion failed',
